@@ -376,7 +376,7 @@ pub fn act_bracket(sim: &mut Sim, ctx: &mut Ctx, kind: BracketKind) -> Option<Tx
     if !has_record || ctx.rng.chance(1, 10) {
         ixs.push(ix::init_liq_record(target, ctx.world.payer));
     }
-    let start_pos = ixs.len();
+    let mut start_pos = ixs.len();
     let start = match kind {
         BracketKind::Liquidation => ix::start_liquidation(target, receiver, rm.clone()),
         BracketKind::Deleverage => ix::start_deleverage(g.key, target, receiver, rm.clone()),
@@ -432,6 +432,41 @@ pub fn act_bracket(sim: &mut Sim, ctx: &mut Ctx, kind: BracketKind) -> Option<Tx
         BracketKind::Deleverage => ix::end_deleverage(g.key, target, receiver, rm.clone()),
     };
     ixs.push(end.clone());
+    // drill: a forced wind-down while the group has NO daily limit yet, then the group admin
+    // configures one (about the value just withdrawn), then the same bracket again within the day:
+    // what was withdrawn before the limit existed still belongs to that day
+    if kind == BracketKind::Deleverage && ctx.rng.chance(4, 5) {
+        let lim0 = model::group_of(&sim.store, &g.key).map(|x| x.deleverage_withdraw_window_cache.daily_limit).unwrap_or(1);
+        let low = crate::refm::read_oracle(&sim.store, &a_bank, sim.clock)
+            .ok()
+            .and_then(|v| crate::refm::biased(&v, &a_bank, false).ok())
+            .map(|(low, _, _)| low);
+        if let (0, Some(low)) = (lim0, low) {
+            let v0 = token_balance(&sim.store, &a_info.keys.liquidity_vault);
+            let o = sim.apply(Event::Tx(Tx::many("risk_admin", ixs.clone())));
+            if sim.violated() && sim.stop_on_violation {
+                return None;
+            }
+            if o.map(|o| o.ok()).unwrap_or(false) {
+                use num_traits::ToPrimitive;
+                let out = v0.saturating_sub(token_balance(&sim.store, &a_info.keys.liquidity_vault));
+                let dollars = (model::qu(out) * low / model::pow10(a_bank.mint_decimals as u32)).floor().to_integer().to_u64().unwrap_or(0);
+                if dollars >= 4 {
+                    let lim = dollars.clamp(1, u32::MAX as u64) as u32;
+                    sim.stats.fault("deleverage_limit_configured_after_unlimited_withdrawal");
+                    sim.apply(Event::Tx(Tx::one("group_admin", ix::configure_deleverage_withdrawal_limit(g.key, g.admins.admin, lim))));
+                    // the same bracket again, at once (refused for the limit on a correct program)
+                    // (the liquidation record exists by now)
+                    ixs.retain(|x| x.tag != "init_liq_record");
+                    start_pos = ixs.iter().position(|x| x.tag == start.tag).unwrap_or(0);
+                    let o2 = sim.apply(Event::Tx(Tx::many("risk_admin", ixs.clone())));
+                    if sim.violated() && sim.stop_on_violation {
+                        return None;
+                    }
+                }
+            }
+        }
+    }
     // shape faults
     match ctx.rng.below(24) {
         0 => {
